@@ -213,6 +213,28 @@ def run(run):
     }
     run.extra["variants"] = {k: v for k, v in variants.items()}
     sampled = 0
+    # positioned layouts (fields placed out of order, into holes, over each other): the vectorised code inserts a whole
+    # run as one fragment where the field loop inserts field by field
+    pos_profile = {"p_backrun": 0.5, "p_move": 0.55, "p_backward_at": 0.5, "max_fields": 6, "max_depth": 2, "p_rep": 0.05, "p_opt": 0.03,
+                   "moves": {"at": 7, "shift": 3, "aligned": 1}, "kinds": {"int": 60, "data": 30, "bits": 4, "ref": 4, "sel": 0, "em": 2},
+                   "int_widths": [1, 1, 2, 2, 4]}
+    for bench in driver.families(run, rng, pos_profile, variants, nfam // 4, instrument=(), tag="c03p"):
+        run.count("positioned_families")
+        for j in range(8):
+            raw, oc = model.generate_input(bench.fam, rng, maxlen=100)
+            ref = compare_unpack(run, bench, variants, "valid@0", raw, 0)
+            if ref is None or ref[0] != "ok":
+                continue
+            compare_pack(run, bench, variants, ref[1], "parsed value tree (positioned layout)")
+            # sweep one-byte position fields so that runs land before / flush against / into other fields
+            root = bench.fam["decls"][bench.fam["root"]]
+            for steer in [f for f in root["fields"] if "pos" in (f.get("hint") or {}) and f["t"] == "int" and f["n"] == 1 and "rep" not in f and "opt" not in f][:2]:
+                for val in range(0, 16):
+                    m = model.copy_val(ref[1])
+                    m.vals[steer["name"]] = val
+                    compare_pack(run, bench, variants, m, "position sweep %s=%d" % (steer["name"], val))
+        if run.counters["violations"] > 30:
+            return
     for bench in driver.families(run, rng, profile, variants, nfam, instrument=(), tag="c03"):
         fam = bench.fam
         n, fmts = struct_runs(bench, variants)
